@@ -1,5 +1,6 @@
 //! Shared vocabulary: command specs, builder, observations and reference models.
 
+pub mod dev;
 pub mod obs;
 pub mod spec;
 
